@@ -133,7 +133,8 @@ class MediaQuery(cssutils.util._NewBase):  # cssutils.util.Base):
                     name='media_type',
                     match=lambda t, v: t == PreDef.types.IDENT
                     and normalize(v) in self.MEDIA_TYPES,
-                    stopIfNoMoreMatch=True,
+                    # hand a following token back only if a list parser is there to take it
+                    stopIfNoMoreMatch=self._partof,
                     toStore='media_type',
                 ),
                 Sequence(
